@@ -117,6 +117,10 @@ def _havoc_locals(it, frame, names, lc):
         except PyRaise:
             continue
         kind = lc.kinds.get(nm)
+        if kind == "keep":
+            # declared unchanged at the loop head (assigned only on the way out): not havoced; checked after
+            # every body run that comes back to the head
+            continue
         if kind is None:
             if isinstance(cur, SV):
                 kind = cur.kind
@@ -230,6 +234,7 @@ def _cut_loop(it, node, frame, key, lc, kind, iterinfo=None):
         log_prev = it.write_log
         it.write_log = []
         cols_before = dict(it.world.cols) if it.world is not None else {}
+        kept = {nm: frame.locals.get(nm) for nm, kd in lc.kinds.items() if kd == "keep"}
         try:
             r = _run_body(it, node.body, frame)
         finally:
@@ -238,6 +243,10 @@ def _cut_loop(it, node, frame, key, lc, kind, iterinfo=None):
                 log_prev.extend(wl)
         _check_frame(it, wl, lc, key)
         _check_frame_world(it, cols_before, lc, key, rowidx, oname)
+        if r != "break":
+            for nm, kd in lc.kinds.items():
+                if kd == "keep" and frame.locals.get(nm) is not kept.get(nm):
+                    raise EngineError(f"loop {key}: the contract keeps local {nm}, but the body assigns it on a path back to the loop head")
         if r == "break":
             # leaving the loop from an arbitrary iteration: execution continues after the loop
             return
